@@ -43,6 +43,8 @@ def plan(tier, seed):
         ntrans += tr
         for ops in ms:
             cases.append({"ops": fsm.ops_json(ops), "labels": labels})
+    for k in range(len(INTERLEAVE_POOLS)):
+        cases.append({"mode": "interleave", "pool": k, "ops": []})
     return {
         "cases": cases,
         "states": nstates,
@@ -86,7 +88,87 @@ def table_of(m):
     return {k: v for k, v in paths(machine_data(m)).items() if v != Poly.zero}
 
 
+INTERLEAVE_POOLS = [
+    [("I", 0), ("F", 1), ("A", 0, "a", 1), ("A", 1, EPS, 0), ("A", 0, "a", 0), ("F", 0)],
+    [("I", 0), ("I", 1), ("F", 1), ("A", 0, EPS, 1), ("A", 1, "a", 1), ("A", 1, "b", 2), ("F", 2)],
+]
+
+
+def run_interleave(case):
+    """Histories interleaving add_I / add_F / add_arc with queries on ONE automaton object."""
+    from vf import engine_hist as eh
+    from vf.ref_cfg import enum_weighted, rules_of, NoConvergence
+
+    pool = INTERLEAVE_POOLS[case["pool"]]
+    W = fsm.poly_weights(len(pool))
+    fails = []
+    total = {"histories": 0, "transitions": 0}
+    for cls, clsname in ((base.WFSA, "base.WFSA"),):
+
+        def make():
+            return cls(Poly)
+
+        def apply_builder(m, i):
+            op = pool[i]
+            if op[0] == "I":
+                m.add_I(op[1], W[i])
+            elif op[0] == "F":
+                m.add_F(op[1], W[i])
+            else:
+                m.add_arc(op[1], op[2], op[3], W[i])
+
+        def tab(x):
+            if isinstance(x, str):
+                return x
+            try:
+                return ("chart", {k: v for k, v in paths(machine_data(x)).items() if v != Poly.zero})
+            except Diverges as e:
+                return f"diverges {e}"
+
+        def gtab(g):
+            if isinstance(g, str):
+                return g
+            try:
+                return ("chart", enum_weighted(rules_of(g), g.S, g.V, maxsteps=60))
+            except (NoConvergence, RecursionError) as e:
+                return f"diverges {e}"
+
+        queries = [("call", ()), ("call", ("a",)), ("call", ("a", "a")), ("total_weight", None), ("epsremove", None), ("reverse", None), ("trim", None), ("renumber", None), ("to_cfg", None), ("to_bytes", None), ("star", None), ("A+A", None), ("accessible", None), ("dim", None)]
+
+        def apply_query(m, q):
+            o, c = q
+            if o == "call":
+                return _call(lambda: ("val", m(c)))
+            if o == "total_weight":
+                return _call(lambda: ("val", m.total_weight()))
+            if o == "accessible":
+                return _call(lambda: ("val", sorted(map(repr, m.accessible() & m.co_accessible()))))
+            if o == "dim":
+                return ("val", m.dim)
+            if o == "to_cfg":
+                return gtab(_call(lambda: m.to_cfg(S="<S>")))
+            f = {"epsremove": lambda: m.epsremove, "reverse": lambda: m.reverse, "trim": lambda: m.trim, "renumber": lambda: m.renumber, "to_bytes": m.to_bytes, "star": m.star, "A+A": lambda: m + m}[o]
+            return tab(_call(f))
+
+        res = eh.explore_interleaved(make, list(range(len(pool))), queries, apply_builder, apply_query, lambda a, b: a == b, depth=4 if TIER != "thorough" else 5, max_queries=2)
+        total["histories"] += res["histories"]
+        total["transitions"] += res["transitions"]
+        seen = set()
+        for hist, have, want in res["violations"]:
+            q = queries[hist[-1][1]]
+            first_q = next(queries[i] for k, i in hist if k == "q")
+            key = (repr(q), repr(first_q))
+            if key in seen:
+                continue
+            seen.add(key)
+            pretty = [("build " + repr(pool[i])) if k == "b" else repr(queries[i]) for k, i in hist]
+            fails.append(_fail("automaton: answer after add_I/add_F/add_arc equals a fresh automaton's (no stale cache)", {"object": clsname, "history": pretty}, have, want))
+    return {"evals": total["transitions"], "nontrivial": 1, "fails": fails, "counters": {"executions": total["transitions"], "hist_histories": total["histories"]}}
+
+
 def run_case(case):
+    if case.get("mode") == "interleave":
+        return run_interleave(case)
     p = cfgp()
     ops = fsm.ops_from_json(case["ops"])
     alphabet = [a for a in case["labels"] if a != EPS]
